@@ -107,6 +107,24 @@ def arm_regions(body, switch_block):
     return out
 
 
+def arm_ret_values(body, tb, switch_block, key):
+    """Return-place definitions (block, idx, term) that an arm of a switch can produce: explored from the arm's target with the
+    discriminant fixed to that arm, terms built only from the definitions on those paths. Arms that share a body (or-patterns),
+    a tail after the match, or bindings made per alternative are all seen with the value they have for THIS arm."""
+    t = body.term(switch_block)
+    n = len(body.blocks[switch_block]['stmts'])
+    dt = strip_sites(tb.operand_term(t['discr'], switch_block, n))
+    if key == 'otherwise':
+        return ret_values_under(body, tb, {}, start=t['otherwise'])
+    tgt = None
+    for v, bb in t['targets']:
+        if v == key:
+            tgt = bb
+    if tgt is None:
+        tgt = t['otherwise']
+    return ret_values_under(body, tb, {dt: key}, start=tgt)
+
+
 def block_is_unreachable(body, b):
     t = body.term(b)
     return t is not None and t['k'] == 'unreachable' and not any(s['k'] == 'assign' for s in body.blocks[b]['stmts'])
@@ -491,6 +509,24 @@ def ret_values_under(body, tb, env, start=0, stop_blocks=()):
         for d in tb.defs(0):
             if d[0] in R:
                 out.append((d[0], d[1], norm_returned(tb.def_term(0, d))))
+    finally:
+        tb.allowed = saved
+    return out
+
+
+def calls_under(body, tb, env, start=0, stop_blocks=()):
+    """(block, callee, argument terms) of the calls executed under the valuation env, in block order; the argument terms are
+    built from the definitions on those paths only."""
+    R = reach_under(body, tb, env, start=start, stop_blocks=stop_blocks)
+    outside = executed_before(body, start)
+    saved = tb.allowed
+    out = []
+    try:
+        tb.allowed = frozenset(R | outside)
+        for bi in sorted(R):
+            t = body.term(bi)
+            if t and t['k'] == 'call' and not body.blocks[bi]['cleanup']:
+                out.append((bi, body.callee(bi), tb.call_args(bi)))
     finally:
         tb.allowed = saved
     return out
